@@ -707,7 +707,7 @@ EXPECTED_BRANCHES = (
     + ["pl-all-blocks", "pl-covered"] + ["pl-level-%d" % i for i in range(0, 5)]
     + ["amrd-depth-%d" % i for i in range(0, 4)] + ["amrd-%s-%s" % (a, b) for a in ("absorbed", "escaped") for b in ("1cell", "multi")]
     + ["amrd-level-change", "amrd-periodic-wrap", "amrd-corrected-last-step"] + ["oct-found-%d" % i for i in range(0, 5)]
-    + ["cart-redirected-photon", "amrd-redirected-photon"])
+    + ["cart-redirected-photon", "amrd-redirected-photon", "oct-all-stored"])
 
 
 def tally(ctx, ops, model, nontrivial=lambda op, ml: True):
@@ -726,11 +726,11 @@ def run(ctx):
         "photons: every traversal is driven with freshly constructed photons AND with photons that were constructed with another direction, traced, and redirected through the public setters set_position/set_direction (the only way PhotonSource::reemit, DustScattering, DustPhotonShootJob and the task based re-emission give a photon a new direction); photon_inverse_direction proves both paths cache 1/direction",
         "Voronoi grids are otherwise not covered (C15 not applicable); Octree::get_closest_ngb and the periodic Octree distances are tied by the differential run and the brute-force oracle only (modelled, no theorem beyond octree_search_is_bruteforce, whose covering hypotheses are then assumptions)",
         "AMR traversal theorems (amr_path_sum, amr_tau_account, amr_absorbed_cell_contains_end, amr_segments_in_cells) hold for every grid of well-formed trees (depth <= 10, hence every tree reachable by refinements), every medium, every photon and every loop fuel under RayHyp: positive box sides, start in the half-open box, non-zero direction, DBL_MAX above every wall distance, and no leaf spanning the whole box on a periodic axis (such a leaf is its own neighbour: the code spins with ds = 0); NO 2:1 level balance is needed (set_ngbs stores a same-level or coarser neighbour, a coarser one is always a leaf; amr_neighbours_geometric)",
-        "octree_build_search_partial: non-periodic tree, positions in the half-open box, any n (fixed defect octree:single-position-search-returns-nothing: one-position trees are generated, the walks start at the leaf root; octree_single_position); brute force over the STORED indices: that every index < n is stored needs the positions to separate within the 64 levels of the model's recursion fuel (the code recurses without bound, equal positions never separate; generators keep positions distinct)",
+        "octree_build_search: for positions in the half-open box no two of which are closer than 2^-62 box sides on all three axes, add_position never descends beyond 63 levels, every index is stored and get_ngbs / get_ngbs_sphere return exactly the brute-force answer over ALL positions (non-periodic distances); the premise is checked on every run (driver tag oct-all-stored: the 64-level fuel of the model dropped no position; the real code recurses without bound and equal positions never separate). octree_build_search_partial keeps the statement over the STORED indices without the separation hypothesis; one-position and empty trees included (fixed defect octree:single-position-search-returns-nothing, octree_single_position)",
         "theorems are about exact arithmetic (Nat/Int for keys and traversals, real numbers for the geometric parts); IEEE rounding is not modelled, the tie is the bit-exact differential run on doubles",
         "AMR keys: depth <= 10 and <= 1024 blocks per axis (the widths of the 32+32 bit key); the C++ shifts `cell << 3*level` overflow int beyond that",
         "max_range_is_last / increase_range_next are for cubic bucket grids (sx = sy = sz), the only ones the PointLocations constructor builds; set_max_range is wrong for some non-cubic sizes (Lean counterexample 5x1x3, anchor (2,0,2))",
-        "nearest_is_bruteforce(_partial): the covered-radius bound is a hypothesis (derived in nearest_covered_radius_bound from: every stored point lies in the cell of its bucket, the query lies in its anchor cell); fuel of the model loops not exhausted (checked by the run: an exhausted fuel is printed)",
+        "nearest_is_bruteforce_built: for the grid the constructor model builds (Buckets.build, the definition the driver runs) with all positions and the query in the half-open box, the geometric hypotheses (points in their buckets, query in its anchor cell, covered-radius bound) are theorems and the answer is the brute-force nearest neighbour of ALL positions; the only remaining hypotheses are the fuel bounds of the two model loops (checked by the run: an exhausted fuel is printed). nearest_is_bruteforce_partial / nearest_is_bruteforce remain for arbitrary bucket grids (hcover / Geo assumed there)",
         "cartesian_path_sum holds for every loop fuel; termination is not claimed (a periodic grid without opacity loops forever in the C++ as well) — generators keep opacities positive on periodic grids",
         "a single cell across a periodic axis of an AMRDensityGrid is its own neighbour: the traversal never wraps the position and spins with ds = 0 (degenerate configuration, reported, not generated)",
         "positions within one ulp of a top face / exactly on AMR block walls with odd block counts: the code clamps the indices (fixes 2fae05a, d8603ab) and the models mirror the clamps; amr_locate_total / cartesian_index_robust hold for every numeric type without any assumption on rounding, the exact-arithmetic theorems show the clamps are inactive inside the box",
@@ -793,7 +793,12 @@ MANIFEST = dict(
           "escaped => sum kappa*path = tau - remaining with remaining >= 0 (cartesian_path_sum); get_wall_intersection returns a "
           "non-negative distance to the wall(s) named by the index offsets, inside the closed cell (cartesian_wall_intersection); "
           "through wall, edge, corner crossings and periodic wraps the position stays in the closed box of the current cell, every "
-          "recorded path is >= 0 and credited to a cell of the grid, an absorbed photon ends inside the box (cartesian_segments). AMR grid: key <-> (level, path) "
+          "recorded path is >= 0 and credited to a cell of the grid, an absorbed photon ends inside the box (cartesian_segments); the "
+          "deposits ARE the chords of the straight line: the deposit (c, ds) made after the deposits `older` covers the line "
+          "parameters [T, T+ds], T = sum of older; that interval lies in the closed chord of cell c (for one image of the line modulo "
+          "whole box lengths on periodic axes), and wherever on it the line is in the OPEN box of any cell, that cell is c "
+          "(cartesian_deposits_are_chords; ClosedChord/OpenChord are the Lean definitions of the chord of a line in an axis-aligned "
+          "cell; the harness evaluates the same statement on the real classes, chord oracle). AMR grid: key <-> (level, path) "
           "bijection and 64-bit block/cell split (amr_key_roundtrip); get_first_key/get_next_key visit every leaf exactly once in Morton "
           "order for EVERY tree of depth <= 10 (hence every tree reachable by refinements) and every block layout <= 1024 per axis "
           "(amr_enumeration, amr_enumeration_grid, induction on the tree); refine (amr_refine); leaf volumes sum to the box "
@@ -803,8 +808,9 @@ MANIFEST = dict(
           "Bucket search: increase_indices visits every integer offset exactly once, level = max-norm, levels ascending "
           "(shells_exactly_once); set_max_range returns the last block of a cubic grid (max_range_is_last); increase_range stops on the "
           "next block inside the grid and never skips a level (increase_range_next); get_closest_neighbour returns the brute-force "
-          "nearest neighbour (nearest_is_bruteforce_partial under the covered-radius hypothesis, which nearest_covered_radius_bound "
-          "derives from 'points lie in their buckets, query in its anchor cell'). Morton keys: loop = bit interleaving, injective, "
+          "nearest neighbour of ALL positions for the grid the constructor builds (nearest_is_bruteforce_built: bucket assignment of "
+          "the constructor modelled, Buckets.build, 'points lie in their buckets, query in its anchor cell' and the covered-radius bound "
+          "proved from it; nearest_is_bruteforce_partial for arbitrary bucket grids under the covered-radius hypothesis). Morton keys: loop = bit interleaving, injective, "
           "strictly monotone per coordinate. Tie: the same Lean definitions (Float instance) and the real classes run on identical "
           "inputs (random boxes, block counts with odd factors, positions on cell walls and box faces, refinement histories to depth "
           "8, all periodicity flags, axis-aligned/diagonal/generic rays, exact optical-depth ties, random and clustered point sets); "
@@ -821,7 +827,8 @@ MANIFEST = dict(
           "refinement levels and periodic faces (amr_neighbours_geometric). Octree (Model/Octree.lean, bit-exact incl. result "
           "order; photons built by the constructor and redirected by set_direction both carry 1/direction, photon_inverse_direction): pruned get_ngbs / get_ngbs_sphere = brute force over the stored points under the covering hypotheses "
           "(octree_search_is_bruteforce); the tree built by add_position + set_auxiliaries(max) satisfies them for the Euclidean "
-          "distances, for every number of positions (octree_build_search_partial); a one-position tree returns its point iff it is in "
+          "distances, for every number of positions (octree_build_search_partial, over the stored indices); for positions separated by "
+          ">= 2^-62 box sides on some axis every index is stored and the answer is brute force over ALL positions (octree_build_search); a one-position tree returns its point iff it is in "
           "range (octree_single_position, false before the get_first_node fix); add_position loses no index "
           "(octree_add_position_leaves)."),
     note=("Trusted: Lean kernel + propext/Classical.choice/Quot.sound; hand models of the anchored functions tied by the differential run "
@@ -829,7 +836,7 @@ MANIFEST = dict(
           "rounding is not modelled. cartesian_segments assumes inverse direction = 1/direction, a non-zero direction and DBL_MAX "
           "above every wall distance (RayOK). Not proved: termination of interact in periodic grids without opacity (genuinely non-terminating); "
           "Octree::get_closest_ngb and the periodic Octree covering (modelled and compared bit-exactly, brute-force oracle, no theorem); that "
-          "every position is stored in the Octree (recursion fuel 64, see assumptions); Voronoi grids have no model and no theorem (C15 not applicable): VoronoiDensityGrid is driven with 0/1/3 Lloyd iterations and judged only by "
+          "positions closer than 2^-62 box sides are stored in the Octree model (recursion fuel 64; checked per run, tag oct-all-stored); Voronoi grids have no model and no theorem (C15 not applicable): VoronoiDensityGrid is driven with 0/1/3 Lloyd iterations and judged only by "
           "grid-independent oracles on the implementation (nearest-generator location, chord oracle through get_cell_index). The AMR "
           "traversal theorems need no 2:1 level balance; they exclude a leaf spanning a periodic axis (own neighbour, ds = 0 forever). max_range_is_last needs "
           "the cubic grid PointLocations always builds (Lean counterexample for 5x1x3). Five genuine defects of /repo were exposed by "
